@@ -8,6 +8,7 @@ Everything must be created inside a coroutine running on a vlib.vloop.VirtualLoo
 from __future__ import annotations
 
 import asyncio
+import collections
 import itertools
 
 from bumble import hci
@@ -35,6 +36,7 @@ class Tap:
         self.unit = unit
         self._delays = {H2C: self._cycle(delays, 0), C2H: self._cycle(delays, 1)}
         self._last = {H2C: 0.0, C2H: 0.0}
+        self._queue = {H2C: collections.deque(), C2H: collections.deque()}
         self.sinks = {H2C: None, C2H: None}
         self.listeners = []  # callables (direction, bytes) called at delivery time
         self.filters = []  # callables (direction, bytes) -> bytes | None (drop) at delivery
@@ -54,10 +56,17 @@ class Tap:
         d = next(self._delays[direction]) * self.unit
         when = max(self._last[direction], now + d)
         self._last[direction] = when
+        # Timers with equal deadlines may fire in any order (heapq is not stable), so every
+        # scheduled callback delivers the OLDEST queued packet of its direction: FIFO always.
+        self._queue[direction].append(packet)
         if when <= now:
-            self.loop.call_soon(self._deliver, direction, packet)
+            self.loop.call_soon(self._deliver_next, direction)
         else:
-            self.loop.call_at(when, self._deliver, direction, packet)
+            self.loop.call_at(when, self._deliver_next, direction)
+
+    def _deliver_next(self, direction: str) -> None:
+        if self._queue[direction]:
+            self._deliver(direction, self._queue[direction].popleft())
 
     def _deliver(self, direction: str, packet: bytes) -> None:
         for f in self.filters:
